@@ -26,6 +26,7 @@ def generated_model(state_names, const_names, derived=True, intermediate=True, c
     t = c.add_variable('time')
     t.set_binding('time')
     t.set_rhs(0)
+    t.set_unit(myokit.units.s)
     decl = {}
     for nm in const_names:
         v = c.add_variable(nm)
@@ -113,6 +114,8 @@ def tables_consistent(m):
             m._model.get(nm)
         except KeyError:
             return 'output %s does not exist in the model' % nm
+    if set(m._output_name_map.keys()) != set(m._output_names) or len(set(m._output_name_map.values())) != len(m._output_names):
+        return 'output name map %s does not describe exactly the selected outputs %s' % (m._output_name_map, list(m._output_names))
     if set(m._parameter_name_map.keys()) != set(states + consts):
         return 'published-name map has keys %s, parameters are %s' % (sorted(m._parameter_name_map.keys()), states + consts)
     if sim.sensitivities is not None:
